@@ -55,6 +55,16 @@ PROPS = {
         rule="methods GET/POST/PUT/DELETE/OPTIONS x bodies (empty, 1 byte, text, all 256 byte values, 100 KiB) x header multisets drawn from a pool with repeated names, mixed case, every hop-by-hop name, Authorization, conditional and Range headers x rule flavours (copy target, retry_rule that matches or not, four hostheader modes, request_headers set/delete/add) x fault scripts (k connection failures then success with k up to the retry budget + 1, 4xx then fallback, copy failures); non-trivial = at least one delivery; distinct = distinct case encodings",
         classify=kind_of,
     ),
+    "C08": dict(
+        family="cache", xcheck=30,
+        proof_files=["Proofs/C08Proofs.v"],
+        trusted_base=TB_COMMON + ["caching/verif_export.go hooks: VerifWaitIdle (quiescence after each request), VerifSetCreated through a Storage decorator (one injected clock for creation stamps and ages)", "the scripted origin answers 304 only to conditional requests (mirrored in the model)", "on-disk state is compared after every request: entry names (SHA-1 computed in Coq), the raw xattr metadata and the body"],
+        assumptions=ASSUME_COMMON + ["responses without any explicit lifetime and without force_revalidate are a don't-care (served until evicted)",
+                                     "sequential histories: stale-while-revalidate only matters under concurrency (C12)",
+                                     "time.Parse of Expires is an oracle computed by the harness with the code's two layouts"],
+        rule="histories of 3-9 operations on one resource: fill with a lifetime from every source (max-age, s-maxage+max-age, stale-if-error, stale-while-revalidate, Expires, upper case, none), clock advances of 1, L-1, L, L+1, 3L, 100000 s, origin changes (new version, 304 with and without refreshed headers, 4xx/5xx with a body, connection refused), HEAD requests, with force_revalidate 0/10/45/1000; each request is compared (client response, origin deliveries incl. validators, disk content) and judged by the freshness monitor; non-trivial = at least one request served from the cache or revalidated; distinct = distinct case encodings",
+        classify=lambda row: "history",
+    ),
     "C15": dict(
         family="unit+cache",
         proof_files=["Proofs/C15Proofs.v", "Spec/SpecC15.v"],
@@ -74,28 +84,28 @@ PROPS = {
         classify=lambda row: "recomp-unit",
     ),
     "C07": dict(
-        family="unit+cache",
+        family="unit+cache", xcheck=120,
         proof_files=["Proofs/C07Proofs.v"],
-        trusted_base=TB_COMMON + ["caching/verif_export.go (verif-tagged aliases of encodeStorageMetadata / decodeStorageMetadata)", "the JSON fallback decoder is outside the model (a custom-encoded record never starts with '{')"],
+        trusted_base=TB_COMMON + ["caching/verif_export.go hooks: VerifWaitIdle (quiescence after each request), VerifSetCreated through a Storage decorator (one injected clock for creation stamps and ages)", "the scripted origin answers 304 only to conditional requests (mirrored in the model)", "on-disk state is compared after every request: entry names (SHA-1 computed in Coq), the raw xattr metadata and the body"] + ["caching/verif_export.go (verif-tagged aliases of encodeStorageMetadata / decodeStorageMetadata)", "the JSON fallback decoder is outside the model (a custom-encoded record never starts with '{')"],
         assumptions=ASSUME_COMMON + ["a panic of sToHeader on corrupted metadata (empty last part) is reported as a decode error"],
-        rule="metadata records with header names/values drawn half from plain HTTP vocabulary and half from the delimiter alphabet (| [ ] ], { } : , quotes backslash JSON), single and repeated values, hosts/paths/redirects with '|'; plus raw strings for the decoder (valid, perturbed, truncated, JSON-looking, junk); the real encoder's output is decoded by the model and compared with the input record; non-trivial = the record has at least one header; distinct = distinct case encodings",
+        rule="(histories) fill with plain or hostile header sets (repeated names, delimiter bytes, JSON-like values, binary bodies, 301/400/403/404 answers, response_headers overrides), then hits after clock advances, after a restart of the server over the same directory, and after a 304 revalidation - the hit must replay status, body and every header value of the fill; (codec) metadata records with header names/values drawn half from plain HTTP vocabulary and half from the delimiter alphabet (| [ ] ], { } : , quotes backslash JSON), single and repeated values, hosts/paths/redirects with '|'; plus raw strings for the decoder (valid, perturbed, truncated, JSON-looking, junk); the real encoder's output is decoded by the model and compared with the input record; non-trivial = the record has at least one header; distinct = distinct case encodings",
         classify=lambda row: "codec-unit",
     ),
     "C09": dict(
-        family="unit+cache",
+        family="unit+cache", xcheck=60,
         proof_files=[],
-        trusted_base=TB_COMMON + ["ETAG_SUFFIX is read from the process environment: unit cases set it under a mutex"],
+        trusted_base=TB_COMMON + ["caching/verif_export.go hooks: VerifWaitIdle (quiescence after each request), VerifSetCreated through a Storage decorator (one injected clock for creation stamps and ages)", "the scripted origin answers 304 only to conditional requests (mirrored in the model)", "on-disk state is compared after every request: entry names (SHA-1 computed in Coq), the raw xattr metadata and the body"] + ["ETAG_SUFFIX is read from the process environment: unit cases set it under a mutex"],
         assumptions=ASSUME_COMMON,
-        rule="ETag forms (quoted, weak, unquoted, empty, already suffixed, stray quotes, W and / prefixes) x suffix unset / four suffix values through the real AddETagSuffix, StripETagSuffix, normalizeEtag; non-trivial = non-empty ETag; distinct = distinct case encodings",
+        rule="(histories) conditional and unconditional clients (matching, non-matching, weak, suffixed validators; If-Modified-Since), origin answers 304 (with refreshed, empty or cache-forbidding headers) / new 200 / 4xx / 5xx with and without a body, HEAD, ETAG_SUFFIX unset or set in 20% of the histories; (unit) ETag forms (quoted, weak, unquoted, empty, already suffixed, stray quotes, W and / prefixes) x suffix unset / four suffix values through the real AddETagSuffix, StripETagSuffix, normalizeEtag; non-trivial = non-empty ETag; distinct = distinct case encodings",
         exhaustive=True,
         classify=lambda row: "etag-unit",
     ),
     "C10": dict(
-        family="unit+cache",
+        family="unit+cache", xcheck=120,
         proof_files=["Proofs/C10Proofs.v", "Spec/SpecC10.v"],
-        trusted_base=TB_COMMON + ["caching/verif_export.go (VerifDirectives exposes the unexported directive fields)"],
+        trusted_base=TB_COMMON + ["caching/verif_export.go hooks: VerifWaitIdle (quiescence after each request), VerifSetCreated through a Storage decorator (one injected clock for creation stamps and ages)", "the scripted origin answers 304 only to conditional requests (mirrored in the model)", "on-disk state is compared after every request: entry names (SHA-1 computed in Coq), the raw xattr metadata and the body"] + ["caching/verif_export.go (VerifDirectives exposes the unexported directive fields)"],
         assumptions=ASSUME_COMMON + ["qualified no-cache=\"...\" / private=\"...\", quoted or signed lifetimes and contradictory repeated lifetimes are don't-cares (the property text does not decide them)"],
-        rule="36 directive spellings (cases, HTAB/SP padding, quoted, signed, qualified, malformed) alone, after 'public,', before ',max-age=60' and on a second header line, then random multi-line headers of 1-4 lines x 1-4 members with four separators, with and without Vary; non-trivial = at least one directive; distinct = distinct case encodings",
+        rule="(histories) uncacheable and cacheable answers alternating on one resource, methods GET/POST/PUT/DELETE, Authorization with and without a rule that strips or replaces it, each followed by a later plain request: no forbidden body may be on disk or be served from the cache; (unit) 36 directive spellings (cases, HTAB/SP padding, quoted, signed, qualified, malformed) alone, after 'public,', before ',max-age=60' and on a second header line, then random multi-line headers of 1-4 lines x 1-4 members with four separators, with and without Vary; non-trivial = at least one directive; distinct = distinct case encodings",
         classify=lambda row: "cc-unit",
     ),
     "C11": dict(
